@@ -170,7 +170,7 @@ pub struct Engine<'a> {
     ovs: Vec<OvInfo>,
     fins: Vec<FinInfo>,
     last_marker: Option<usize>,
-    pool: Vec<Key>,
+    pub pool: Vec<Key>,
     next_sid: usize,
     pub big: bool,
     pub scale: usize,
@@ -182,6 +182,12 @@ pub struct Engine<'a> {
     pub witness_on: bool,
     pub force_witness: bool,
     pub events: BTreeMap<String, u64>,
+    /// C16 image mode: when set, every quiescent point (`check_committed`) hands the directory and
+    /// the oracle's committed map to `image::snapshot` (behaviour is unchanged when `None`)
+    pub image_sink: Option<crate::image::Snapshots>,
+    /// C16 image mode: mostly 600..1300-byte inline values, so that leaves hold 3-4 keys and a few
+    /// thousand keys need several bottom-level branch nodes (default false: unchanged generator)
+    pub fat_values: bool,
 }
 
 fn chance_list<T: Clone>(rng: &mut Rng, v: &[T]) -> T {
@@ -215,6 +221,8 @@ impl<'a> Engine<'a> {
             witness_on: false,
             force_witness: false,
             events: BTreeMap::new(),
+            image_sink: None,
+            fat_values: false,
         };
         e.pool = gen_keyset(&mut e.rng, 40);
         e.open_db();
@@ -320,6 +328,16 @@ impl<'a> Engine<'a> {
     }
 
     /// a batch over the given view: (key, access) sorted by key, plus the write list
+    fn gen_val(&mut self) -> Val {
+        if self.fat_values && self.rng.chance(3, 4) {
+            let len = self.rng.range(600, 1300);
+            let mut v = gen_value(&mut self.rng, false);
+            v.resize(len, 0x5a);
+            return v;
+        }
+        gen_value(&mut self.rng, self.big)
+    }
+
     fn gen_batch(&mut self, view: &Map, max: usize) -> (Vec<(Key, KeyReadWrite)>, Vec<(Key, Option<Val>)>) {
         let n = self.rng.range(1, (max * self.scale).max(1));
         let mut acc: BTreeMap<Key, KeyReadWrite> = BTreeMap::new();
@@ -332,8 +350,8 @@ impl<'a> Engine<'a> {
                 0 | 1 => KeyReadWrite::Read(cur),
                 2 | 3 => KeyReadWrite::Write(None),
                 4 => KeyReadWrite::ReadThenWrite(cur, None),
-                5 => KeyReadWrite::ReadThenWrite(cur, Some(gen_value(&mut self.rng, self.big))),
-                _ => KeyReadWrite::Write(Some(gen_value(&mut self.rng, self.big))),
+                5 => KeyReadWrite::ReadThenWrite(cur, Some(self.gen_val())),
+                _ => KeyReadWrite::Write(Some(self.gen_val())),
             };
             acc.insert(k, a);
         }
@@ -746,6 +764,9 @@ impl<'a> Engine<'a> {
         for _ in 0..n {
             let k = if self.rng.chance(3, 4) { *self.rng.pick(&keys) } else { self.gen_key() };
             self.dread(&k, why);
+        }
+        if let Some(snaps) = self.image_sink.as_mut() {
+            snaps.snapshot(&self.dir, &self.committed, why);
         }
     }
 
